@@ -13,6 +13,7 @@ import Lemmas.ArgparseRefine
 import Props.C17.Dispatch
 import Lemmas.ArgparseDispatchTotal
 import Lemmas.ArgparseFlag
+import Lemmas.ArgparseWorlds
 namespace Cnfgen.C17
 open Cnfgen.Cli Cnfgen.Cli.AP Cnfgen.Gen
 
@@ -239,8 +240,8 @@ theorem dispatch_total_fragment_x (h : HelperSpec) (s : CliSpec) (hspec : specOf
 theorem inline_tables_ok : (cliSpecs.filter (·.inline)).all inlineTableOK = true := by decide +kernel
 
 /-- the sub-commands for which `dispatch_total_all_tokens` is proved: standard options or inline.  The others are
-`php` (hand-written action) and the five that go through `compose_two_parsers`: for them `parser_total_all_tokens`
-and the correspondence. -/
+`php` (hand-written action) and the five that go through `compose_two_parsers`: `dispatch_total_every_command` below
+covers them through the abstract interpreter. -/
 theorem commands_outside_total_x :
     (cliSpecs.filter (fun s => s.supportedX && !(s.standard || s.inline))).map (·.name) =
       ["op", "php", "subsetcard", "tseitin", "majcomp", "xorcomp"] := by decide +kernel
@@ -270,6 +271,37 @@ theorem dispatch_total_all_tokens (tool : String) (ord : List String → Nat) (s
     simp only [Bool.and_eq_true, Bool.not_eq_true'] at h1
     have h2 := (List.all_eq_true.1 standard_commands_totalClassExt) s (List.mem_filter.2 ⟨hs, hstd⟩)
     exact dispatchX_total_std tool ord s h2 h1.1.2 h1.2 hgood argv
+
+/-- `php` and the five `compose_two_parsers` sub-commands: their option tables have the shape the derivation of their
+WORLDS assumes (one custom positional, flags otherwise, disjoint dests, sub-parsers made of typed / chosen / optional /
+graph positionals), and the abstract interpreter (Cli/ArgparseAbs.lean) accepts every world: whatever the numbers, the
+graphs and the order of a graph file, the helper's method takes a path whose call can be built or that raises ValueError -/
+theorem special_worlds_ok :
+    (cliSpecs.filter (fun s => s.supportedX && !(s.standard || s.inline))).all
+      (fun s => worldTablesOK s && worldsOK s) = true := by decide +kernel
+
+/-- T-C17.5c (extended, complete) TOTALITY FOR ALL 50 SUB-COMMANDS ON EVERY LIST OF TOKENS.  `php` and the composed
+sub-commands included (the exclusion of the earlier rounds is lifted: `php` was excluded because its action is
+hand-written, `op subsetcard tseitin majcomp xorcomp` because their guards do arithmetic on, ask the order of, or test
+the existence of what only one of the two sub-parsers binds — handled here by deriving the possible namespaces and
+running an abstract interpreter proved sound over them). -/
+theorem dispatch_total_every_command (tool : String) (ord : List String → Nat) (s : CliSpec) (hs : s ∈ cliSpecs)
+    (hsx : s.supportedX = true) (argv : List String) : Answers (dispatchSpecX tool ord s argv) := by
+  by_cases hc : s.standard = true ∨ s.inline = true
+  · exact dispatch_total_all_tokens tool ord s hs hc argv
+  · have hns : s.standard = false := by
+      cases h : s.standard with
+      | true => exact absurd (Or.inl h) hc
+      | false => rfl
+    have hni : s.inline = false := by
+      cases h : s.inline with
+      | true => exact absurd (Or.inr h) hc
+      | false => rfl
+    have hgood : ∀ o ∈ s.opts, goodOpt o = true :=
+      fun o ho => (List.all_eq_true.1 ((List.all_eq_true.1 all_options_modelled) s (List.mem_filter.2 ⟨hs, hsx⟩))) o ho
+    have := (List.all_eq_true.1 special_worlds_ok) s (List.mem_filter.2 ⟨hs, by simp [hsx, hns, hni]⟩)
+    simp only [Bool.and_eq_true] at this
+    exact dispatchX_total_special tool ord s hsx hni this.1 this.2 hgood argv
 
 /-- the quirk really occurs: `stone 2 pyramid 2 --sparse=--` (TypeError in the helper, reported as a CLIError) -/
 example : dispatchNamedX "cnfgen" (fun _ => 4) "formula" "stone" ["2", "pyramid", "2", "--sparse=--"] =
